@@ -112,7 +112,9 @@ impl System for Sys {
                     Op::ProvisionHeld(i) => n.held_bufs.remove(*i),
                     _ => unreachable!(),
                 };
-                let full = pre.free.len() >= nslots + 2;
+                // 'full' is the implementation's own capacity (observed through the hook), not a constant of the harness
+                let cap = MemS::cap_of(&m);
+                let full = pre.free.len() >= cap;
                 let small = buf.len() < MAX_PDU;
                 let r = catch(|| m.provision_storage(buf.clone().into_boxed_slice()));
                 match r {
@@ -123,7 +125,7 @@ impl System for Sys {
                     Ok(Ok(())) => {
                         acc.outcome("provision:Ok");
                         if full {
-                            fail("provision|accepted-when-full", format!("accepted although the free list already holds {} buffers (slots+2)", pre.free.len()));
+                            fail("provision|accepted-when-full", format!("accepted although the free list already holds {} buffers (its capacity)", pre.free.len()));
                         }
                         if small {
                             fail("provision|accepted-too-small", format!("accepted a {}-byte buffer, configured PDU size {}", buf.len(), MAX_PDU));
@@ -176,7 +178,7 @@ impl System for Sys {
                 Ok(Err(e)) => {
                     let (k, _) = mem_err_kind(&e);
                     acc.outcome(&format!("new_pdu:Err({})", k));
-                    if k != "StorageUnderflow" || !pre.free.is_empty() {
+                    if !pre.free.is_empty() {
                         fail("new_pdu|fails-with-free-buffers", format!("Err({}) with {} free buffers", k, pre.free.len()));
                     }
                 }
@@ -223,7 +225,7 @@ impl System for Sys {
                         if pre.frags[slot].is_some() {
                             fail("new_frag|fails-on-occupied-slot", format!("Err({}) although the slot holds a context whose buffer must be reused", k));
                             exp_slots[slot] = None; // whatever happened, resynchronised below
-                        } else if k != "StorageUnderflow" || !pre.free.is_empty() {
+                        } else if !pre.free.is_empty() {
                             fail("new_frag|fails-with-free-buffers", format!("Err({}) with {} free buffers", k, pre.free.len()));
                         }
                     }
